@@ -123,6 +123,11 @@ func init() {
 			}
 			/* a fresh item per width sequence: String/Preview share the Markup cache */
 			emit(Op{"op": "present", "doc": doc, "as": op["as"], "withid": op["withid"], "widths": widths})
+			if count%5 == 0 {
+				/* and, one code point after the other, a plain note / profile that carries the
+				   character in all its spellings in every place a body has */
+				emit(controlDoc(r, count/5))
+			}
 		})
 	}}
 }
@@ -233,4 +238,52 @@ func injectControls(r *rand.Rand, docText string, i int, widths []any) string {
 	walk(doc, "", 0)
 	b, _ := json.Marshal(doc)
 	return string(b)
+}
+
+/* a small post or profile with one control character (the k-th) written in every way, in text,
+   preformatted text, inline code, attributes that are shown, attachment names and links */
+func controlDoc(r *rand.Rand, k int) Op {
+	c := controlPoint(k)
+	forms := spellings(c)
+	all := strings.Join(forms, " ")
+	pickf := func() string { return pick(r, forms) }
+	cycle := k / 78
+	var content, mt string
+	switch cycle % 3 {
+	case 0, 2:
+		mt = pick(r, []string{"text/html", "", "text/html; charset=utf-8"})
+		content = "<p>a " + all + " b</p><pre>" + all + "</pre><code>" + pickf() + "</code> <b>" + pickf() + "</b>" +
+			"<img src=\"https://t.example/i" + pickf() + "\" alt=\"pic " + all + "\"><img src=\"https://t.example/j?" + pickf() + "\">" +
+			"<iframe title=\"" + all + "\" src=\"https://t.example/f\"></iframe><a href=\"https://t.example/l" + pickf() + "\">link " + pickf() + "</a>" +
+			"<x" + pickf() + ">y</x>" + "<blockquote>" + sequenceAround(r, pickf()) + "</blockquote><ul><li>" + pickf() + "</li></ul><h1>" + pickf() + "</h1>"
+	case 1:
+		mt = "text/markdown"
+		content = "a " + all + " b\n\n    " + all + "\n\n`" + pickf() + "` **" + pickf() + "** [link " + pickf() + "](https://t.example/l" + pickf() + " \"" + pickf() + "\") ![pic " + all + "](https://t.example/i)\n\n> " + sequenceAround(r, pickf()) + "\n\n* " + pickf() + "\n\n# " + pickf()
+	}
+	if cycle%6 == 5 {
+		mt = pick(r, []string{"text/gemini", "text/plain"})
+		content = "=> https://t.example/g" + pickf() + " label " + all + "\n# " + pickf() + "\n```\n" + all + "\n```\nhttps://t.example/p" + pickf() + " " + all
+	}
+	doc := map[string]any{"content": content}
+	if mt != "" {
+		doc["mediaType"] = mt
+	}
+	as := "post"
+	if k%4 == 3 {
+		as = "actor"
+		doc["type"], doc["summary"], doc["name"], doc["preferredUsername"] = pick(r, []string{"Person", "Service"}), content, "N "+all, "u"+pickf()
+		doc["id"] = "https://h.example/u"
+		delete(doc, "content")
+	} else {
+		doc["type"], doc["name"] = pick(r, []string{"Note", "Article", "Video"}), "T "+all
+		doc["attachment"] = []any{
+			map[string]any{"type": "Link", "href": "https://t.example/a" + pickf(), "name": "att " + all},
+			map[string]any{"type": "Image", "url": "https://t.example/b" + pickf() + "?" + pickf() + "#" + pickf()},
+			map[string]any{"type": "Document", "url": pickf() + "://" + pickf(), "mediaType": "x/" + pickf()},
+		}
+		doc["published"] = pickf()
+		doc["attributedTo"] = map[string]any{"type": "Person", "name": "A " + all, "preferredUsername": pickf()}
+	}
+	b, _ := json.Marshal(doc)
+	return Op{"op": "present", "doc": string(b), "as": as, "withid": as == "actor", "widths": []any{pick(r, []int{80, 40, 120}), pick(r, []int{3, 7, 12, 20})}}
 }
